@@ -377,6 +377,18 @@ def check_leaf_predicate(ctx):
     f = _meta(ctx).methods["_check"]
     acc = f.nested.get("accepts_leaftype")
     isl = f.nested.get("is_leaftype")
+    acc_name, leaf_param = "accepts_leaftype", None
+    if acc is not None and isl is None:
+        # the predicate lifted to module level with the acceptor as an explicit parameter: `is_leaftype = lambda x: H(accepts_leaftype, x)`
+        # (what `functools.partial(H, accepts_leaftype)` stands for): H is read with its first parameter standing for the acceptor
+        for st in walk_scope(f.node):
+            if isinstance(st, ast.Assign) and any(isinstance(t_, ast.Name) and t_.id in ("is_leaftype", "is_check_leaftype", "is_flatten_leaftype") for t_ in st.targets) \
+                    and isinstance(st.value, ast.Lambda) and isinstance(st.value.body, ast.Call) and len(st.value.args.args) == 1 and len(st.value.body.args) == 2 \
+                    and norm(st.value.body.args[0]) == "accepts_leaftype" and norm(st.value.body.args[1]) == st.value.args.args[0].arg:
+                t_ = m.resolve_call(f, st.value.body)
+                if t_.kind == "func" and len(t_.target.params) == 2:
+                    isl = t_.target
+                    acc_name, leaf_param = isl.params[0], isl.params[1]
     if acc is None or isl is None:
         raise AnalysisError("C08.4: the leaf predicate (accepts_leaftype / is_leaftype) is not present in a recognised form")
     ctx.saw(acc)
@@ -396,7 +408,7 @@ def check_leaf_predicate(ctx):
     ok = False
     if len(tries) == 1:
         t = tries[0]
-        calls = [c for b in t.body for c in ast.walk(b) if isinstance(c, ast.Call) and norm(c.func) == "accepts_leaftype" and [norm(x) for x in c.args] == [isl.params[0]]]
+        calls = [c for b in t.body for c in ast.walk(b) if isinstance(c, ast.Call) and norm(c.func) == acc_name and [norm(x) for x in c.args] == [leaf_param or isl.params[0]]]
         hs = [h for h in t.handlers if h.type is not None and norm(h.type) == "TypeError"]
         if calls and len(t.handlers) == 1 and hs and any(isinstance(x, ast.Return) and isinstance(x.value, ast.Constant) and x.value.value is False for x in hs[0].body) \
                 and any(isinstance(x, ast.Return) and isinstance(x.value, ast.Constant) and x.value.value is True for x in t.orelse + [y for y in isl.body if y is not t]):
